@@ -87,6 +87,7 @@ func (l *Limiter) Run(input interface{}) interface{} {
 		}
 		l.Unlock()
 	}
+	verifYield("limiter.before_get_output")
 	return l.getOutput(t)
 }
 
